@@ -420,10 +420,12 @@ class VTime(object):
     return self.base + self.offset
 
   def sleep(self, d):
+    if d < 0:
+      raise ValueError('sleep length must be non-negative')      # as time.sleep() does
     if self.sched is not None:
       self.sched.sleep(d)
     else:
-      self.offset += max(0.0, d)
+      self.offset += d
 
   def monotonic(self):
     return self.time()
